@@ -52,6 +52,7 @@ type Result struct {
 	ModelEcos          []string               `json:"model_ecos"`
 	Notes              []string               `json:"notes"`
 	WallS              float64                `json:"wall_s"`
+	Findings           []FindingStatus        `json:"findings"`
 }
 
 func (r *Result) stream(name string) *StreamStat {
@@ -137,6 +138,7 @@ func main() {
 		defer pool.Close()
 	}
 	f(ctx)
+	res.Findings = findingStatuses(*prop)
 	res.WallS = time.Since(t0).Seconds()
 	b, _ := json.MarshalIndent(res, "", " ")
 	if *out != "" {
